@@ -183,7 +183,13 @@ def run_case(c):
         pool = TwoBodyKinematicVariableSet(sy["m_12"], sy["m_1"], sy["m_2"], sp.Symbol("theta"), sp.Symbol("phi"),
                                            angular_momentum=c["L"])
         cls = PHSP[c["phsp"]]
-        expr, defaults = RelativisticBreitWignerBuilder(c["ff"], c["edw"], cls)(particle, pool)
+        bld = RelativisticBreitWignerBuilder(c["ff"], c["edw"], cls)
+        for pm, pw, pL in c.get("prior", []):
+            # history: the SAME builder object was used before, on a same-named resonance with other mass / width / L
+            prior_particle = qrules.particle.Particle(name="R", latex="R", pid=99, spin=1, mass=pm, width=pw)
+            bld(prior_particle, TwoBodyKinematicVariableSet(sy["m_12"], sy["m_1"], sy["m_2"], sp.Symbol("theta"),
+                                                          sp.Symbol("phi"), angular_momentum=pL))
+        expr, defaults = bld(particle, pool)
         mR, gR, dR = sp.Symbol("m_{R}", nonnegative=True), sp.Symbol(R"\Gamma_{R}", nonnegative=True), \
             sp.Symbol("d_{R}", positive=True)
         S = sy["m_12"] ** 2
@@ -245,6 +251,9 @@ def gen_cases(seed, n):
                         "phsp": names[(i // 12) % len(names)], "L": (i // 60) % 4, "mass": rng.uniform(0.5, 3.0),
                         "width": rng.uniform(0.01, 0.6), "m12": a + b + rng.uniform(0.01, 2.0), "m1": a, "m2": b,
                         "d": rng.uniform(0.3, 4.0)})
+            if rng.random() < 0.5:  # every other builder case: the builder object has a history
+                out[-1]["prior"] = [[round(rng.uniform(0.5, 3.0), 3), round(rng.uniform(0.01, 0.6), 3), rng.choice([0, 1, 2])]
+                                    for _ in range(rng.choice([1, 2]))]
     return out
 
 
